@@ -450,7 +450,12 @@ class C08(C04):
       if v.oracle in ("schema-vs-metadata", "stray-column-records", "engine-tables"):
         raise
       sim.count("probe.c04_oracle_fired_ignored_here")
-      # ... but the state that C04 objects to is still a state in which C08 must hold.
+      # ... but the state that C04 objects to is still a state in which C08 must hold -- for the
+      # fault kinds C04 claims. A failure injected inside a schema doc action, or in the
+      # post-action phase, is the territory of findings F-i / F-l (no rollback exists there).
+      fault = ev.get("fault") or {}
+      if fault.get("phase") == "post" or fault.get("kind") in faults.FINDING_KINDS:
+        raise StopRun()
       for proc in (sim.primary, sim.twin):
         if proc is None:
           continue
